@@ -25,6 +25,7 @@ import (
 type Options struct {
 	VerifyOnly    bool `json:"verify_only,omitempty"`
 	TxManager     bool `json:"tx_manager,omitempty"`
+	LateTxManager bool `json:"late_tx_manager,omitempty"`  // with TxManager: the transaction manager exists but is attached to the node / node manager only by a later call (AttachTxManager)
 	Manager       bool `json:"node_manager,omitempty"`     // register the node with a NodeManager
 	Preload       bool `json:"preload_headers,omitempty"`  // the repository already holds blocks 1 and 2 (learned from another peer)
 	HeaderHandler bool `json:"header_handler,omitempty"`   // a secondary headers handler is installed, as the node manager does for every node it creates
@@ -238,7 +239,9 @@ func start(opt Options, with *Session) *Session {
 		s.TxManager = bitcoin_reader.NewTxManager(time.Hour)
 		s.Processor = &SpyProcessor{}
 		s.TxManager.SetTxProcessor(s.Processor)
-		s.Node.SetTxManager(s.TxManager)
+		if !opt.LateTxManager {
+			s.Node.SetTxManager(s.TxManager)
+		}
 		s.txDone = make(chan struct{})
 		go func() {
 			defer close(s.txDone)
@@ -250,7 +253,7 @@ func start(opt Options, with *Session) *Session {
 		s.Manager.VerifAddNode(s.Node)
 	} else if opt.Manager {
 		s.Manager = bitcoin_reader.NewNodeManager("/verif/", cfg, s.Headers, s.Peers)
-		if s.TxManager != nil {
+		if s.TxManager != nil && !opt.LateTxManager {
 			s.Manager.SetTxManager(s.TxManager)
 		}
 		s.Manager.VerifAddNode(s.Node)
@@ -265,6 +268,19 @@ func start(opt Options, with *Session) *Session {
 		s.RunErr = s.Node.VerifRun(s.Ctx, s.Conn, s.interrupt)
 	}()
 	return s
+}
+
+// AttachTxManager attaches the transaction manager of a LateTxManager session while the node is
+// running: directly to the node, or through the node manager.
+func (s *Session) AttachTxManager(viaManager bool) {
+	if s.TxManager == nil {
+		return
+	}
+	if viaManager && s.Manager != nil {
+		s.Manager.SetTxManager(s.TxManager)
+	} else {
+		s.Node.SetTxManager(s.TxManager)
+	}
 }
 
 // Collect moves the node's output into Frames.
